@@ -36,13 +36,13 @@ theorem drExpinvA_closed {θ : ℝ} (h : ¬ θ * θ < Scalar.eps2) : SE2.drExpin
 theorem dr_exp_closed (a : Vec ℝ 3) (h : Scalar.eps2 < a 2 * a 2) :
     SE2.dr_exp a = poly2 (SE2.ad a) (αe (a 2)) (βe (a 2)) := by
   ext i j
-  simp only [SE2.dr_exp, memoM_eq, cos_2_sq h, ← sin_3_sq h, Mat.of_get, poly2]
+  simp only [SE2.dr_exp, memoM_eq, Lin.mmul_msmul_get, cos_2_sq h, ← sin_3_sq h, Mat.of_get, poly2]
   ring
 
 theorem dr_expinv_closed (a : Vec ℝ 3) (h : ¬ a 2 * a 2 < Scalar.eps2) :
     SE2.dr_expinv a = poly2 (SE2.ad a) (1 / 2) (Ae (a 2)) := by
   ext i j
-  simp only [SE2.dr_expinv, memoM_eq, drExpinvA_closed h, Mat.of_get, poly2,
+  simp only [SE2.dr_expinv, memoM_eq, Lin.mmul_msmul_get, drExpinvA_closed h, Mat.of_get, poly2,
     Nat.cast_ofNat]
   ring
 
